@@ -11,7 +11,8 @@ RULE = (
     "every ordered call tree with <= n nodes labelled over three mutually calling instrumented "
     "functions (direct, indirect, recursive calls, repeated siblings) x every chain selector "
     "f0(c0) > f1(c1) > .. > v up to depth 3 (labelings up to renaming, every per-level context capture, "
-    "both focus variables) and every sibling selector r(ctx, s1(cap), s2(!v)) in both orders; the stream "
+    "both focus variables), every sibling selector r(ctx, s1(cap), s2(!v)) in both orders, and every selector "
+    "r > m(s1(cap), t(!v)) whose sibling calls hang off a capture-free middle link (on trees of <= 5 nodes); the stream "
     "of probing(selector) must equal the RSS expectation: per focus binding, one event per embedding of "
     "the chain into the live stack, with context values from exactly the matched activations. "
     "non-trivial = distinct (tree, selector) pairs with at least one expected event; counters report pairs "
@@ -30,10 +31,84 @@ def selectors(tier):
     return out
 
 
+TWIN_SRC = '''
+def make(k):
+    def node(x):
+        p = x + k
+        return p
+    return node
+
+f1 = make(100)
+f2 = make(200)
+
+def outer(seq):
+    for fn, x in seq:
+        fn(x)
+'''
+
+
+def check_same_qualname(part):
+    """Two function objects made by one factory (same __qualname__, same source, distinct identity):
+    a selector names one of them; every call sequence of length <= 3 over the two, with a probe on one,
+    on the other, or on both (in both activation orders), directly and under an instrumented caller."""
+    import itertools
+    from ptera import probing
+
+    ns = world.make_module(TWIN_SRC)
+    f = {"f1": ns["f1"], "f2": ns["f2"]}
+    off = {"f1": 100, "f2": 200}
+    seqs = [s for n in (1, 2, 3) for s in itertools.product(("f1", "f2"), repeat=n)]
+    for active in (("f1",), ("f2",), ("f1", "f2"), ("f2", "f1")):
+        for via in ("direct", "outer"):
+            for seq in seqs:
+                got = {a: [] for a in active}
+                probes = []
+                text = {a: (f"{a} > p" if via == "direct" else f"outer > {a} > p") for a in active}
+                try:
+                    for a in active:
+                        pr = probing(text[a], env=dict(ns))
+                        pr.subscribe(lambda ev, a=a: got[a].append(ev["p"]))
+                        pr.__enter__()
+                        probes.append(pr)
+                    calls = [(f[name], i + 1) for i, name in enumerate(seq)]
+                    if via == "direct":
+                        for fn, x in calls:
+                            fn(x)
+                    else:
+                        ns["outer"](calls)
+                except BaseException as e:
+                    part["violations"].append(violation(PROP, "same-qualname", {"twins": True, "active": list(active), "via": via, "seq": list(seq)},
+                                                        f"{type(e).__name__}: {e}", tags=["same-qualname"]))
+                    continue
+                finally:
+                    for pr in reversed(probes):
+                        try:
+                            pr.__exit__(None, None, None)
+                        except BaseException:
+                            pass
+                part["cases"] += 1
+                part["evaluations"] += 1
+                part["steps"] += len(seq)
+                part["nontrivial"] += 1
+                part["outcomes"]["same-qualname"] += 1
+                want = {a: [i + 1 + off[a] for i, name in enumerate(seq) if name == a] for a in active}
+                if got != want:
+                    part["violations"].append(violation(
+                        PROP, "same-qualname", {"twins": True, "active": list(active), "via": via, "seq": list(seq)},
+                        f"probes {[text[a] for a in active]} on two functions made by one factory, calls {list(seq)} ({via}): "
+                        f"expected {want!r}, delivered {got!r}", tags=["same-qualname"]))
+    world.reset_context()
+
+
+def mid_selectors():
+    return list(E.mid_sibling_selectors())
+
+
 def units(tier):
     n = len(selectors(tier))
     chunk = 4
-    return [("sels", lo, min(n, lo + chunk)) for lo in range(0, n, chunk)]
+    m = len(mid_selectors())
+    return [("sels", lo, min(n, lo + chunk)) for lo in range(0, n, chunk)] + [("mid", lo, min(m, lo + 2)) for lo in range(0, m, 2)] + [("twins",)]
 
 
 def check_selector(sel, trees, part, record=True, mixed=False):
@@ -112,7 +187,17 @@ def tree_list(tier):
 
 def work(unit, tier):
     part = new_partial()
+    if unit[0] == "twins":
+        check_same_qualname(part)
+        return part
     _, lo, hi = unit
+    if unit[0] == "mid":
+        # two activations of the middle link under one outer activation need five nodes
+        if "mid" not in _TREES:
+            _TREES["mid"] = list(CT.trees(5))
+        for sel in mid_selectors()[lo:hi]:
+            check_selector(sel, _TREES["mid"], part, mixed=True)
+        return part
     for n, sel in enumerate(selectors(tier)[lo:hi]):
         # alternate between the all-parentheses and the mixed '>' spelling of the same selector
         check_selector(sel, tree_list(tier), part, mixed=bool((lo + n) % 2) or len(sel.children) > 1)
@@ -125,9 +210,13 @@ def work(unit, tier):
 
 def replay(case):
     part = new_partial()
+    if case.get("twins"):
+        check_same_qualname(part)
+        bad = [v for v in part["violations"] if v["case"] == case]
+        return (True, bad[0]["detail"]) if bad else (False, "each probe receives exactly the calls of its own function")
     tree = eval(case["tree_repr"]) if "tree_repr" in case else None
     for tier in ("thorough",):
-        for sel in selectors(tier):
+        for sel in selectors(tier) + mid_selectors():
             for mixed in (False, True):
                 if R.render(sel, mixed=mixed) != case["selector"]:
                     continue
